@@ -165,8 +165,11 @@ fn main() {
         p.acc.outcomes.clear();
         parts.push(p);
     }
+    // MC_ALLOW_PARTIAL=1: developer sweeps that deliberately run the default-feature variant alone (never set by ./check
+    // for MANIFEST commands)
+    let partial = std::env::var_os("MC_ALLOW_PARTIAL").is_some();
     for want in entry.variants {
-        if !parts.iter().any(|p| p.variant == *want) {
+        if !partial && !parts.iter().any(|p| p.variant == *want) {
             eprintln!("MACHINERY: variant '{want}' required by {prop} was not run (MC_SIBLINGS={siblings})");
             std::process::exit(2);
         }
